@@ -6,6 +6,9 @@ Stores each refactoring under /verif/seeded/refactor/<area>-r<N>/ and the outcom
 import json, os, subprocess, sys, glob, shutil
 PC = sys.argv[1]
 AREAS = sys.argv[2:]
+ROUND = os.environ.get('ROUND', '1')          # 1: /tmp/wtr_<area>, names <area>-rN;  2 (held-out): /tmp/wtq_<area>, names <area>-qN
+SRCPFX = {'1': '/tmp/wtr_', '2': '/tmp/wtq_'}[ROUND]
+TAG = {'1': 'r', '2': 'q'}[ROUND]
 PROPS = {
  'csslex': ['C01','C02','C07','C08','C20'], 'cssparse': ['C01','C08','C15','C20'], 'htmllex': ['C01','C02','C09','C17','C20'],
  'xmllex': ['C01','C02','C11','C17','C20'], 'jsonparse': ['C01','C10','C15','C20'], 'jslex': ['C01','C02','C06','C20'],
@@ -13,17 +16,17 @@ PROPS = {
  'stream': ['C13','C20'], 'binary': ['C19','C20'], 'common': ['C16','C17','C14','C15','C09','C08','C20'],
 }
 def sh(cmd, **kw): return subprocess.run(cmd, shell=True, capture_output=True, text=True, **kw)
-resf='/verif/seeded/REFACTOR_RESULTS.json'
+resf='/verif/seeded/REFACTOR_RESULTS.json' if ROUND=='1' else '/verif/seeded/REFACTOR2_RESULTS.json'
 res=json.load(open(resf)) if os.path.exists(resf) else {}
 for area in AREAS:
-    src=f'/tmp/wtr_{area}'
-    wt=f'/tmp/evalrf_{area}'; ev=f'/tmp/evalrfv_{area}'
+    src=SRCPFX+area
+    wt=f'/tmp/evalrf{ROUND}_{area}'; ev=f'/tmp/evalrfv{ROUND}_{area}'
     sh(f'git -C /repo worktree add -f --detach {wt} HEAD')
     os.makedirs(ev+'/evidence/replay', exist_ok=True)
     shutil.copy('/verif/known-findings.txt', ev)
     for pd in sorted(glob.glob(f'{src}/out/r*/patch.diff')):
         n=os.path.basename(os.path.dirname(pd))
-        name=f'{area}-{n}'
+        name=f'{area}-{TAG}{n[1:]}'
         dst=f'/verif/seeded/refactor/{name}'
         os.makedirs(dst, exist_ok=True)
         shutil.copy(pd, dst)
@@ -40,7 +43,7 @@ for area in AREAS:
             r=sh(f'{PC} -prop {p} -tier quick -repo {wt} -verif {ev}', timeout=1800)
             if r.returncode!=0:
                 alarms[p]=[l.strip()[:300] for l in r.stdout.splitlines() if ('VIOLATED' in l or 'UNDECIDED' in l or 'CHECK-BROKEN' in l or 'BROKEN' in l)][:4]
-        res[name]={'area':area,'suite_passes':suite_ok,'checks_run':PROPS[area],'alarms':alarms}
+        res[name]={'area':area,'round':int(ROUND),'suite_passes':suite_ok,'checks_run':PROPS[area],'alarms':alarms}
         print(name, 'suite_ok' if suite_ok else 'SUITE-FAILS', 'ALARMS '+json.dumps(alarms)[:600] if alarms else 'silent', flush=True)
         json.dump(res, open(resf,'w'), indent=1, sort_keys=True)
     sh(f'git -C /repo worktree remove --force {wt}')
